@@ -183,3 +183,54 @@ def parse_multi_request(msg):
 
 def bit_of(value, bit):
     return ((value >> bit) & 1) == 1
+
+
+# ------------------------------------------------------------------------------------------ tag list upload (C05)
+def symbol_entry(instance, name, symbol_type, address, object_address, software_control, dims, access=None):
+    """one entry of a Get Instance Attribute List reply for attributes 1, 2, 3, 5, 6, 8 (and 10 = external access, v18+)"""
+    raw = name.encode("iso-8859-1")
+    out = (le_uint(instance, 4) + le_uint(len(raw), 2) + raw + le_uint(symbol_type, 2) + le_uint(address, 4) +
+           le_uint(object_address, 4) + le_uint(software_control, 4) + le_uint(dims[0], 4) + le_uint(dims[1], 4) + le_uint(dims[2], 4))
+    if access is not None:
+        out = out + bytes([access])
+    return out
+
+
+EXTERNAL_ACCESS_TEXT = {0: "Read/Write", 1: "Reserved", 2: "Read Only", 3: "None"}
+
+
+def symbol_record(instance, name, symbol_type, address, object_address, software_control, dims, access=None):
+    return {"instance_id": instance, "tag_name": name, "symbol_type": symbol_type, "symbol_address": address,
+            "symbol_object_address": object_address, "software_control": software_control,
+            "external_access": EXTERNAL_ACCESS_TEXT.get(access, "Unknown"), "dimensions": [dims[0], dims[1], dims[2]]}
+
+
+def user_visible(name, symbol_type):
+    """1756-PM020 'isolating user-created tags': program / routine / task / map / connection symbols and names starting with
+    two underscores are system symbols; module I/O tags (name:I, :O, :C, :S) are kept; other names containing ':' are not;
+    symbol type bit 12 marks system tags"""
+    for prefix in ("Program:", "Routine:", "Task:"):
+        if name.startswith(prefix):
+            return False
+    if "Map:" in name or "Cxn:" in name:
+        return False
+    io = any(x in name for x in (":I", ":O", ":C", ":S"))
+    if (":" in name and not io) or name.startswith("__"):
+        return False
+    if symbol_type & 0x1000:
+        return False
+    return True
+
+
+def json_typed(v):
+    if v is None or isinstance(v, (str, int, float, bool)):
+        return True
+    if isinstance(v, (list, tuple)):
+        return all(json_typed(x) for x in v)
+    if isinstance(v, dict):
+        return all(isinstance(k, str) and json_typed(x) for k, x in v.items())
+    return False
+
+
+def template_member_info(type_info, type_code, offset):
+    return le_uint(type_info, 2) + le_uint(type_code, 2) + le_uint(offset, 4)
